@@ -749,11 +749,14 @@ class BufferAsyncCalls(Generic[T]):
             except (aio.TimeoutError, aio.CancelledError):
                 if _current_task_cancelling():
                     raise  # This task itself is being cancelled
-                await self._run_func(inputs)
+                if await self._run_func(inputs):
+                    # Delivered: never offer these again, even if another
+                    # thread cleared the event before it is checked
+                    inputs = set()
             else:
                 self.q.task_done()
 
-    async def _run_func(self, inputs: Set[T]) -> None:
+    async def _run_func(self, inputs: Set[T]) -> bool:
         """
         Run :attr:`func` with the given set of inputs and set
         :attr:`event` once it has finished successfully.
@@ -769,8 +772,10 @@ class BufferAsyncCalls(Generic[T]):
             if isinstance(e, aio.CancelledError) and _current_task_cancelling():
                 raise  # This task itself is being cancelled
             logging.exception("Failed to run %s, retrying", self.func)
+            return False
         else:
             self.event.set()
+            return True
 
     def _schedule_with_timeout(self, coro: Awaitable[X]) -> 'aio.Task[X]':
         """
